@@ -78,7 +78,40 @@ func flipKey(k lorawan.AES128Key, bit int) lorawan.AES128Key {
 	return k
 }
 
+// provoke: one time in four, calls that FAIL (invalid frame values, garbage input) are made right before a recorded case;
+// their own results are not recorded - the point is that a failing call must leave nothing behind that changes the next one.
+func (c *ctx) provoke() {
+	if c.rnd.Intn(4) != 0 {
+		return
+	}
+	k := c.key()
+	observeFast(func() error {
+		phy := valToPhy(c.genJoinFrame(true), false)
+		phy.SetUplinkJoinMIC(k)
+		phy.SetDownlinkJoinMIC(lorawan.JoinType(c.pick(0xff, 0, 1, 2)), lorawan.EUI64{1}, 7, k)
+		phy.EncryptJoinAcceptPayload(k)
+		phy.MarshalBinary()
+		return nil
+	})
+	observeFast(func() error {
+		phy := valToPhy(c.genDataFrame(true), false)
+		phy.SetUplinkDataMIC(lorawan.LoRaWAN1_1, 1, 2, 3, k, k)
+		phy.SetDownlinkDataMIC(lorawan.LoRaWAN1_1, 1, k)
+		phy.EncryptFOpts(k)
+		phy.EncryptFRMPayload(k)
+		phy.MarshalBinary()
+		return nil
+	})
+	observeFast(func() error {
+		var p lorawan.PHYPayload
+		p.UnmarshalBinary(c.bytesN(c.rnd.Intn(30)))
+		lorawan.EncryptFOpts(k, true, true, lorawan.DevAddr{}, 1, c.bytesN(16+c.rnd.Intn(4)))
+		return nil
+	})
+}
+
 func (c *ctx) micCase(maxFrm int) {
+	c.provoke()
 	v := c.genDataFrame(false)
 	// application payloads up to 255 bytes exercise multi-block CMAC lengths and the len byte
 	if fp := anyList(v["fport"]); len(fp) == 1 && num(fp[0]) != 0 && c.rnd.Intn(3) == 0 {
@@ -170,6 +203,30 @@ func (c *ctx) micCase(maxFrm int) {
 		ph := valToPhy(cloneM(phyToVal(phy)).(M), false)
 		c.emit(validateEvent(other, ph, q, "crossdir"))
 	}
+	// a RECEIVED frame whose reserved MHDR bits are set: the MIC is defined over the bytes that were received
+	if wb, err := phy.MarshalBinary(); err == nil {
+		bb := append([]byte{}, wb...)
+		bb[0] |= byte(c.pick(0x04, 0x08, 0x10, 0x1c))
+		ph := &lorawan.PHYPayload{}
+		if err := ph.UnmarshalBinary(bb); err == nil {
+			if m, ok := ph.MACPayload.(*lorawan.MACPayload); ok {
+				m.FHDR.FCnt |= mp.FHDR.FCnt & 0xffff0000
+				ev := validateEvent(which, ph, p, "wire-mhdr-rfu")
+				ev["raw"] = bs(bb)
+				c.emit(ev)
+				// ... and the MIC the library sets on that received frame value
+				sres, _ := observeFast(func() error {
+					if up {
+						return ph.SetUplinkDataMIC(lorawan.MACVersion(p.ver), p.conf, p.txdr, p.txch, p.fkey, p.skey)
+					}
+					return ph.SetDownlinkDataMIC(lorawan.MACVersion(p.ver), p.conf, p.skey)
+				})
+				sev := M{"ev": "setmic", "dir": dirOf(mt), "err": sres, "frame": phyToVal(ph), "raw": bs(bb)}
+				p.fields(sev)
+				c.emit(sev)
+			}
+		}
+	}
 	// payload bit
 	b, _ := phy.MarshalBinary()
 	if len(b) > 13 {
@@ -190,6 +247,7 @@ func (c *ctx) micCase(maxFrm int) {
 }
 
 func (c *ctx) cipherCase() {
+	c.provoke()
 	key := c.key()
 	var da lorawan.DevAddr
 	copy(da[:], c.bytesN(4))
@@ -251,6 +309,7 @@ func toIfaceInts(x []int) []interface{} {
 // methodCase: the four PHYPayload methods on spec-valid frames and on frames whose FOpts cannot be
 // marshalled / are too long (error paths).
 func (c *ctx) methodCase() {
+	c.provoke()
 	key := c.key()
 	v := c.genDataFrame(false)
 	// port 0 carries MAC commands: arbitrary bytes there would decode to arbitrary "commands"
@@ -315,6 +374,7 @@ func (c *ctx) methodCase() {
 }
 
 func (c *ctx) joinCase() {
+	c.provoke()
 	key := c.key()
 	var v M
 	for {
